@@ -42,7 +42,7 @@ def expected(r: Row) -> Any:
         aw = v.get("awaiting")
         if aw is None:
             return {"__problem__": "the pending member/test declaration (awaiting slot) is not consulted: the implementing "
-                                   "definition is never claimed"}
+                                   "definition is never claimed", "__part__": "claim"}
         if aw:
             if ev == "DOC":
                 return "unspecified"
@@ -51,7 +51,7 @@ def expected(r: Row) -> Any:
             exp["claim"] = ["is_macro", "params?"]
             return exp
         if ev == "UNDOC" and inc is None:
-            return {"__problem__": f"include_undocumented_{k} is not consulted for an undocumented {k}()"}
+            return {"__problem__": f"include_undocumented_{k} is not consulted for an undocumented {k}()", "__part__": "entries"}
         if documenting:
             exp["entries"] = [ENTRY_CLASS[k]]
             exp["defpush"] = ["entry"]
@@ -64,19 +64,20 @@ def expected(r: Row) -> Any:
     if k == "cmake_parse_arguments":
         ne = v.get("def_nonempty")
         if ne is None:
-            return {"__problem__": "cmake_parse_arguments does not test whether a definition is open: at file level it "
-                                   "addresses an empty stack"}
+            return {"__problem__": "cmake_parse_arguments does not look at the top of the definition stack under a non-emptiness "
+                                   "guard (unrecognised lookup: it may address an empty stack at file level or an element other than "
+                                   "the innermost open definition)", "__part__": "mark"}
         if ne and v.get("def_top_isdoc") is True and v.get("def_top_should", True) is True:
             exp["mark"] = ["top"]
         return exp
     if k == "cpp_class":
         if ev == "UNDOC" and inc is None:
-            return {"__problem__": "include_undocumented_cpp_class is not consulted for an undocumented cpp_class()"}
+            return {"__problem__": "include_undocumented_cpp_class is not consulted for an undocumented cpp_class()", "__part__": "entries"}
         if documenting:
             exp["entries"] = ["ClassDocumentation"]
             exp["clspush"] = ["class"]
             if v.get("cls_nonempty") is None:
-                return {"__problem__": "cpp_class does not look at the enclosing class: inner classes are not registered"}
+                return {"__problem__": "cpp_class does not look at the enclosing class: inner classes are not registered", "__part__": "attach"}
             if v.get("cls_nonempty") and v.get("cls_top_none") is False:
                 exp["attach"] = [("inner_classes", "ClassDocumentation")]
         else:
@@ -87,14 +88,14 @@ def expected(r: Row) -> Any:
         return exp
     if k in MEMBER_FIELD:
         if ev == "UNDOC" and inc is None:
-            return {"__problem__": f"include_undocumented_{k} is not consulted for an undocumented {k}()"}
+            return {"__problem__": f"include_undocumented_{k} is not consulted for an undocumented {k}()", "__part__": "entries"}
         if documenting:
             if v.get("cls_nonempty") is None:
-                return {"__problem__": f"{k} does not check that a class is open"}
+                return {"__problem__": f"{k} does not check that a class is open", "__part__": "attach"}
             if not v.get("cls_nonempty"):
                 return "error-expected"
             if v.get("cls_top_none") is None:
-                return {"__problem__": f"{k} does not check whether the enclosing class is shown (placeholder None)"}
+                return {"__problem__": f"{k} does not check whether the enclosing class is shown (placeholder None)", "__part__": "attach"}
             if v.get("cls_top_none"):
                 return exp
             fld, cls = MEMBER_FIELD[k]
@@ -104,14 +105,14 @@ def expected(r: Row) -> Any:
         return exp
     if k in ("ct_add_test", "ct_add_section"):
         if ev == "UNDOC" and inc is None:
-            return {"__problem__": f"include_undocumented_{k} is not consulted for an undocumented {k}()"}
+            return {"__problem__": f"include_undocumented_{k} is not consulted for an undocumented {k}()", "__part__": "entries"}
         if documenting:
             exp["entries"] = [ENTRY_CLASS[k]]
             exp["awaiting"] = "set:" + ENTRY_CLASS[k]
         return exp
     if k in ("add_test", "option"):
         if ev == "UNDOC" and inc is None:
-            return {"__problem__": f"include_undocumented_{k} is not consulted for an undocumented {k}()"}
+            return {"__problem__": f"include_undocumented_{k} is not consulted for an undocumented {k}()", "__part__": "entries"}
         if documenting:
             exp["entries"] = [ENTRY_CLASS[k]]
         return exp
@@ -209,6 +210,8 @@ def check_rows(rep: Report, rule: str, rows: List[Row], parts: Optional[List[str
             rep.bad(rule, WHERE, case, f"{r.kind} outside any class is accepted silently (does {r.summary()})")
             continue
         if isinstance(exp, dict) and "__problem__" in exp:
+            if parts is not None and exp.get("__part__") not in parts:
+                continue        # concerns a clause that another rule / property judges
             n += 1
             rep.bad(rule, WHERE, case, exp["__problem__"], witness=WITNESS.get(r.kind))
             continue
@@ -383,3 +386,22 @@ def rule_no_crash(rep: Report, repo: Repo, rule: str) -> None:
             else:
                 rep.ok(rule, WHERE, f"{ev} {k}: no crash effect")
     rep.floor(rule, 30, "dispatch cases")
+
+
+def rule_top_addressing(rep: Report, repo: Repo, rule: str) -> None:
+    """C08-R4: placeholders only work if every later event addresses the top of the stack."""
+    rep.rule(rule, "events that modify an existing entry (cmake_parse_arguments mark, member/attribute attachment, inner-class "
+                   "registration) address exactly the top element of their stack: the placeholders pushed for commands whose flag is "
+                   "off then shield enclosing documented entries, so their rendering cannot depend on the flags")
+    lm = model(repo)
+    rows = all_rows(lm, ["cmake_parse_arguments"], events=("UNDOC",))
+    check_rows(rep, rule, rows, ["mark"], "has_kwargs addressing")
+    rows = [r for r in all_rows(lm, ["cpp_member", "cpp_constructor", "cpp_attr", "cpp_class"])]
+    for r in rows:
+        if r.error or "exc" in r.val:
+            continue
+        for fld, cls in r.attach:
+            rep.check("." not in fld and "[" not in fld, rule, WHERE, row_case(r)[:80] + f" attach {fld}",
+                      f"{r.kind} attaches through `{fld}`, not through the top of the class stack: with a hidden (flag off) class in "
+                      f"between, the member lands in an enclosing documented class")
+    rep.floor(rule, 6, "addressing rows")
